@@ -1,3 +1,4 @@
+import HcipyVerif.Lemmas.GridHeap
 import HcipyVerif.Lemmas.GridWeights
 import HcipyVerif.Lemmas.GridPolar
 import Mathlib.Tactic.LinearCombination
@@ -219,6 +220,31 @@ theorem nonmutating_independent (st : Store) (g g2 : Grid) (j : Nat) (h : j < st
     (st.push g)[j]? = st[j]? ∧ ((st.push g).update st.length g2)[j]? = st[j]? := by
   have hne : st.length ≠ j := by omega
   simp [Store.push, Store.update, List.getElem?_append_left h, List.getElem?_set_ne hne]
+
+/-- **The same clause on the reference model** (`Model/GridHeap.lean`: coordinate and weight arrays in a heap,
+grids holding references, `scale` / `shift` writing through them — a model in which aliasing *can* happen;
+`nonmutating_independent` above is about the value store, where it cannot).  `scaled` / `shifted` =
+copy, then the in-place operation on the copy (`ops`: one array operation per coordinate array and one for
+the weights array).  As long as no array is shared (`Sep`, kept by every operation — C10 `ref_sep_invariant`;
+the harness compares the number of shared arrays of the real grids with the model's after every operation):
+every existing grid, the source included, reads the same coordinates and weights afterwards; the result
+holds the transformed values; a later in-place operation `ops2` on the result changes the result only. -/
+theorem ref_nonmutating_independent (w : RWorld) (hs : w.Sep) (i : Nat) (hi : i < w.objs.length) (ops ops2 : List ArrOp)
+    (hl : ops.length = (w.objs[i]).refs.length) (hl2 : ops2.length = (w.objs[i]).refs.length) :
+    (w.copied i ops).Sep ∧
+    (w.copied i ops).abs = w.abs ++ [List.zipWith (fun op a => op.apply a) ops (w.objs[i].val w.heap)] ∧
+    ((w.copied i ops).inplace w.objs.length ops2).abs =
+      w.abs ++ [List.zipWith (fun op a => op.apply a) ops2 (List.zipWith (fun op a => op.apply a) ops (w.objs[i].val w.heap))] :=
+  ⟨RWorld.Sep_inplace _ (w.Sep_construct hs _) _ _, w.abs_copied hs i hi ops hl, w.abs_copied_inplace hs i hi ops ops2 hl hl2⟩
+
+example : (RWorld.new {} [[1, 2], [3]]).Sep ∧ (0 : Nat) < (RWorld.new {} [[1, 2], [3]]).objs.length := by decide
+
+/-- a `scaled` that shares the weights array with its source (copying the coordinates only): the in-place
+`weights *= |J|` on the result changes the source's weights. -/
+theorem Bad.scaled_shares_weights :
+    let w : RWorld := { heap := [[0, 1], [1, 1], [0, 2], [5, 5]], objs := [⟨[0, 1]⟩, ⟨[2, 1]⟩] }
+    (w.inplace 1 [.mulS 2, .mulS 2]).abs = [[[0, 1], [2, 2]], [[0, 4], [2, 2]]] ∧ ¬ w.Sep := by
+  refine ⟨by decide +kernel, by decide⟩
 
 /-! ## Regular grids: covered area, sub/supersampling, focal grids -/
 
@@ -447,6 +473,13 @@ theorem polarToCart_matches_spec (r c s : Rat) (θ : ℝ) (hc : Real.cos θ = (c
 
 example : cartToPolar? [-3 / 2, 2] = some [5 / 2, -3 / 5, 4 / 5] ∧ cartToPolar? [0, 0] = some [0, 1, 0] ∧
     cartToPolar? [-2, 0] = some [2, -1, 0] ∧ cartToPolar? [1, 1] = none := by decide +kernel
+
+/-- executable analogue of `polar_rotate_is_rotation`: turning the direction `(c, s)` of a polar point by the
+angle with cosine `ca` and sine `sa` rotates the Cartesian point by `rot2 ca sa` -/
+theorem polarToCart_rotate (r c s ca sa : Rat) :
+    polarToCart [r, c * ca - s * sa, s * ca + c * sa] = linPt (rot2 ca sa) (polarToCart [r, c, s]) := by
+  simp [polarToCart, linPt, rot2, dot, ratSum]
+  constructor <;> ring
 
 /-! ### Conversion histories: what a conversion returns after other operations
 
